@@ -6,7 +6,7 @@ from ..refsem import T, text, variables, rho, sat, X, Y, Z
 INFO = {
     'functions': ['discrete offline visitor and online operations (as C01/C02)', 'rtamt.semantics.stl.discrete_time.online.predicate_operation',
                   'dense offline visitor / online operations incl. predicate_operation (as C04/C05)'],
-    'bounds': {'quick': 'sign: iff/xor-free F1 over predicate atoms x bounds x N in 2,3,5 (offline, online for past formulas), sample of F2; inductive step per operator '
+    'bounds': {'quick': 'pastified online monitors of bounded-future F1 and until/unless/eventually/always nestings: sign at step i vs sat at i-h, N=h+3; sign: iff/xor-free F1 over predicate atoms x bounds x N in 2,3,5 (offline, online for past formulas), sample of F2; inductive step per operator '
                         'with arbitrary operand values and operand truths constrained only by soundness, N in 1..4; magnitude: F1/F2 over x~c atoms with a second '
                         'symbolic trace within |rho|; dense time: unary temporal/Boolean operators over one-variable predicates at symbolic tau, n<=3',
                'thorough': 'F2 exhaustive, F3 seeded, N up to 7; dense n=4; QF_FP bridging lemma'},
@@ -54,6 +54,26 @@ def h_sign(f, N, mode):
         res = []
         for t in range(N):
             res += sound(A, 'sign@%d' % t, got[t], st[t])
+        return res
+    return body
+
+
+def h_pastified(f, N):
+    """online monitor of a bounded-future formula: update i reports on instant i-h; its sign must be sound for sat at i-h"""
+    f = T(f)
+    vs = sorted(variables(f))
+    h = refsem.hor(f)
+
+    def body(env):
+        A = env.A
+        s = dt.make_spec('online', 'out = ' + text(f), vs, pastify=True)
+        w = dt.trace(env, vs, N)
+        got = dt.online(s, w, N)
+        env.observe('out', got)
+        st = sat(A, f, w, N)
+        res = []
+        for i in range(h, N):
+            res += sound(A, 'pastified@%d' % i, got[i], st[i - h])
         return res
     return body
 
@@ -196,6 +216,23 @@ def obligations(tier, rng):
         out.append(ob('C07', 'sign', 'sign/%s/%s/N=%d' % (mode, text(g), N), f=g, N=N, mode=mode))
         out.append(ob('C07', 'step', 'step/%s/%s/N=%d' % (mode, text(f), 3), f=f, N=3, mode=mode))
         out.append(ob('C07', 'magnitude', 'magnitude/%s/%s/N=%d' % (mode, text(g), 3), f=g, N=3, mode=mode, wall=300))
+    # online monitoring of bounded-future formulas (pastified): the verdict reported at step i is about instant i-h
+    futb = [o for o in ops if o in ('next', 's_next', 'eventually_t', 'always_t', 'until_t', 'unless_t')]
+    pf = [f for f in f1 if refsem.has_future(f) and refsem.hor(f) != refsem.INF]
+    for a_, b_ in ([(0, 1), (1, 2)] if quick else [(0, 1), (1, 2), (0, 2), (2, 2)]):
+        for inn in [('eventually_t', X, 0, 2), ('always_t', X, 1, 2), ('next', X), ('until_t', X, Z, 0, 1), ('once_t', X, 0, 2), ('since_t', X, Z, 0, 1), ('prev', X)]:
+            for k in ('until_t', 'unless_t'):
+                pf += [(k, inn, Y, a_, b_), (k, Y, inn, a_, b_)]
+            for k in ('eventually_t', 'always_t'):
+                pf.append((k, inn, a_, b_))
+            if (a_, b_) == (0, 1):
+                pf += [('next', inn), ('and', inn, ('next', Y)), ('implies', ('next', Y), inn), ('or', ('eventually_t', Y, 0, 1), inn)]
+    for f in pf:
+        if not refsem.has_future(f) or refsem.hor(f) == refsem.INF:
+            continue
+        g = subst(f, ATOMS)
+        for N in ([refsem.hor(f) + 3] if quick else [refsem.hor(f) + 2, refsem.hor(f) + 4]):
+            out.append(ob('C07', 'pastified', 'pastified/%s/N=%d' % (text(g), N), f=g, N=N))
     if not quick:
         for i in range(300):
             f = refsem.gen_formula(rng, 3, ops, [(0, 1), (1, 2)], ('x', 'y'))
